@@ -100,6 +100,11 @@ func userConn(pl *plan) {
 			close(pl.uClosed)
 		})
 	}
+	var gate *h.Gate
+	if px.gated {
+		gate = h.NewGate(visitorHandoverHook, px.name, 1)
+		defer func() { px.gateHits.Add(gate.Hits.Load()); gate.Release() }()
+	}
 	raw, err := net.DialTimeout("tcp", px.dialAddr, 10*time.Second)
 	if err != nil {
 		cs.run.Inconclusive("user dial failed")
@@ -160,6 +165,8 @@ func userConn(pl *plan) {
 				// the request and the first payload bytes leave in one write
 				early = makeHeader(pl.nonce)
 				px.earlyInFlight.Add(1)
+				px.early.Store(pl, true)
+				pl.earlySent.Store(true)
 				defer px.earlyInFlight.Add(-1)
 				if _, err := writeAll(conn, append(append([]byte{}, req...), early...)); err != nil {
 					cs.failUnlessPeerFailed(pl, "unprompted-close", "proxy %s: writing the CONNECT request failed: %v", px.name, err)
@@ -190,8 +197,17 @@ func userConn(pl *plan) {
 	if px.cfg.Greet {
 		g := make([]byte, greetLen)
 		_ = conn.SetReadDeadline(time.Now().Add(stallGrace))
-		if _, err := io.ReadFull(conn, g); err != nil {
-			cs.failUnlessPeerFailed(pl, "greeting-not-delivered", "proxy %s: the backend speaks first, the user received no greeting: %v", px.name, err)
+		_, err := io.ReadFull(conn, g)
+		if gate != nil {
+			gate.Release() // event-driven: the user has its greeting, or has seen the connection fail
+		}
+		if err != nil {
+			key := "greeting-not-delivered"
+			if (px.cfg.Kind == "stcp" || px.cfg.Kind == "xtcp") && !isTimeout(err) {
+				// the visitor connection was dropped before its first byte: frpc could not read NewVisitorConnResp
+				key = "visitor-connection-dropped-when-backend-speaks-first"
+			}
+			cs.failUnlessPeerFailed(pl, key, "proxy %s: the backend speaks first, the user received no greeting: %v (gated hand-over: %v)", px.name, err, gate != nil)
 			return
 		}
 		onRead(greetLen)
@@ -310,7 +326,7 @@ func userConn(pl *plan) {
 				return
 			}
 			if res.Stalled {
-				cs.failUnlessPeerFailed(pl, "close-not-propagated-to-user", "proxy %s: user half-closed, backend finished and closed; the user's connection saw no end-of-stream for %v", px.name, stallGrace)
+				cs.failUnlessPeerFailed(pl, cs.closeKey(pl, "down"), "proxy %s: user half-closed, backend finished and closed; the user's connection saw no end-of-stream for %v", px.name, stallGrace)
 				return
 			}
 		}
@@ -346,7 +362,7 @@ func userConn(pl *plan) {
 			} else if res.Stalled && bClosedByPlan {
 				select {
 				case <-pl.bDone:
-					cs.failUnlessPeerFailed(pl, "close-not-propagated-to-user", "proxy %s: backend closed mid-stream, the user's connection saw neither data nor end-of-stream for %v", px.name, stallGrace)
+					cs.failUnlessPeerFailed(pl, cs.closeKey(pl, "down"), "proxy %s: backend closed mid-stream, the user's connection saw neither data nor end-of-stream for %v", px.name, stallGrace)
 				default:
 				}
 			}
@@ -382,7 +398,7 @@ func userExpectClose(pl *plan, conn net.Conn) {
 	case n > 0:
 		cs.fail(pl, "bytes-injected", "proxy %s: user received %d bytes (%x) after the complete stream, the backend wrote nothing more", pl.px.name, n, buf[:n])
 	case err != nil && isTimeout(err):
-		cs.failUnlessPeerFailed(pl, "close-not-propagated-to-user", "proxy %s: backend closed its connection, user connection still open %v later", pl.px.name, closeGrace)
+		cs.failUnlessPeerFailed(pl, cs.closeKey(pl, "down"), "proxy %s: backend closed its connection, user connection still open %v later", pl.px.name, closeGrace)
 	default:
 		cs.run.Count("closes_propagated_to_user", 1)
 	}
